@@ -49,6 +49,18 @@ void vp_memset_u16(uint16_t *d, uint8_t c, uint64_t n);
 void vp_memset_u32(uint32_t *d, uint8_t c, uint64_t n);
 void vp_memset_u64(uint64_t *d, uint8_t c, uint64_t n);
 
+/* ---- heap model (CBMC): every dynamic object is a block of CONSTANT capacity VP_HEAP_CAP (the LOGICAL size that was
+ * requested is kept in a side table indexed by CBMC's object number; a header inside the block made every write alias it).  Symbolic-size objects put CBMC into its unbounded array theory (measured: 2.5 M SAT
+ * variables / 17 s for a 5-byte conversion, against 0.43 M / 1.6 s with constant-size blocks).  Exactness of bounds checking
+ * is kept by instrumenting every load/store/memcpy of the translated code with VP_ACCESS: offset + width <= logical size.
+ * A request above the capacity is an ASSERTION failure ("oversized allocation request"), never an assumption. */
+#ifndef VP_HEAP_CAP
+#define VP_HEAP_CAP 64
+#endif
+#define VP_HDR 0
+void *vp_heap_alloc(uint64_t n);
+void vp_heap_free(void *p);
+
 void vp_throw(void *obj, int kind);
 void vp_abort_allowed(void);
 void vp_clear_exception(void);
@@ -61,7 +73,12 @@ void vp_clear_exception(void);
 #define VP_OVERFLOW_mult(a, b) __CPROVER_overflow_mult(a, b)
 #define VP_POFF(p) __CPROVER_POINTER_OFFSET(p)
 #define VP_ABORT(m) do { __CPROVER_assert(0, m); __CPROVER_assume(0); } while (0)
+extern uint64_t vp_blk_size[256];   /* logical size per CBMC object number (default --object-bits 8) */
+#define VP_LOGICAL_SIZE(p) (vp_blk_size[(uint8_t)__CPROVER_POINTER_OBJECT(p)])
+#define VP_ACCESS_OK(p, s) (!__CPROVER_DYNAMIC_OBJECT(p) || (__CPROVER_POINTER_OFFSET(p) >= 0 && (uint64_t)__CPROVER_POINTER_OFFSET(p) + (uint64_t)(s) <= VP_LOGICAL_SIZE(p)))
+#define VP_ACCESS(p, s) __CPROVER_assert(VP_ACCESS_OK((p), (s)), "memory access stays inside the bounds of its heap block")
 #else
+#define VP_ACCESS(p, s) ((void)0)
 void vp_nat_assert_fail(const char *msg, const char *file, int line);
 void vp_nat_assume_fail(const char *file, int line);
 void vp_nat_abort(const char *msg);
